@@ -8,7 +8,9 @@ import vlib
 ok = True
 for d in sorted(os.listdir("harness/cmd")):
     try:
-        vlib.go_build(d)
+        import shutil
+        out = vlib.go_build(d)
+        shutil.rmtree(os.path.dirname(out), ignore_errors=True)
         print("built", d, flush=True)
     except Exception as e:
         ok = False
